@@ -2,7 +2,7 @@
    Theorems about the model of the downmix stage and the tick-size computation;
    the timeline half of the property is decided by the correspondence run (see DESIGN §5 C13). *)
 From Coq Require Import ZArith Bool.
-From LX Require Import Base.IntWrap Model.Downmix Proofs.DownmixProofs.
+From LX Require Import Base.IntWrap Model.Downmix Proofs.DownmixProofs Model.FrameInfo.
 Local Open Scope Z_scope.
 
 (* unsigned output is signed output plus the mid-scale offset *)
@@ -57,6 +57,21 @@ Proof.
   exact (out_units_bound mono t B).
 Qed.
 Print Assumptions ticksize_and_buffer.
+
+(* what a frame must report about the music - position, pattern, row, speed, tempo, frame time, voices, sequence - is the same
+   requirement under every sampling rate, channel layout and sample width: of the C16 predicate only the buffer size looks at
+   the output format (two configurations with the same time factor) *)
+Theorem timeline_requirements_ignore_output_format : forall m c c' f, oc_tfn c = oc_tfn c' -> oc_tfd c = oc_tfd c' ->
+  frametime_okb c f = frametime_okb c' f /\
+  (frame_info_okb m c f = true -> buffer_okb c' f = true -> frame_info_okb m c' f = true).
+Proof.
+  intros m c c' f Hn Hd.
+  assert (Hft : frametime_okb c f = frametime_okb c' f) by (unfold frametime_okb; rewrite Hn, Hd; reflexivity).
+  split; [exact Hft|]. unfold frame_info_okb. intros H Hb.
+  apply andb_prop in H as [H Hs]. apply andb_prop in H as [H Hv]. apply andb_prop in H as [H Hf]. apply andb_prop in H as [H _].
+  apply andb_prop in H as [Hp Ht]. rewrite Hp, Ht, Hb, <- Hft, Hf, Hv, Hs. reflexivity.
+Qed.
+Print Assumptions timeline_requirements_ignore_output_format.
 
 (* non-vacuity: concrete accumulator values on both sides of the clamp *)
 Example c13_nonvacuous :
